@@ -684,7 +684,15 @@ fn sweep_large(rec: &Recorder, thorough: bool) -> Tally {
     } else {
         vec![(255, 1, 0), (256, 2, 0), (257, 3, 1), (2000, 2, 0), (2001, 2, 27), (5000, 2, 0), (3, 255, 0), (3, 256, 0), (3, 257, 0), (3, 300, 0), (3, 512, 0), (3, 2, 50), (3, 2, 51), (3, 2, 300), (70000, 3, 100)]
     };
-    for (timecnt, typecnt, leapcnt) in sizes {
+    // (timecnt, typecnt, leapcnt, index pattern): 0 = scattered, 1 = every index 0..min(typecnt, 256) in turn (a transition to
+    // every type an octet can name, in particular to type 255 of a file with 256 or more types), 2 = the same from the top
+    let mut sizes: Vec<(usize, usize, usize, u8)> = sizes.into_iter().map(|(a, b, c)| (a, b, c, 0u8)).collect();
+    for typecnt in [1usize, 2, 3, 127, 128, 129, 254, 255, 256, 257, 258, 300, 511, 512, 513, 1000] {
+        let reach = typecnt.min(256);
+        sizes.push((reach, typecnt, 0, 1));
+        sizes.push((reach + 3, typecnt, 1, 2));
+    }
+    for (timecnt, typecnt, leapcnt, pattern) in sizes {
         let mut b = Block::default();
         // designation pool: typecnt names of 3 characters, reusing the same few strings
         b.chars = b"AAA\0BBB\0CCC\0".to_vec();
@@ -692,7 +700,13 @@ fn sweep_large(rec: &Recorder, thorough: bool) -> Tally {
             b.types.push(((k as i32) * 60 - 3600, (k % 2) as u8, ((k % 3) * 4) as u8));
         }
         for k in 0..timecnt {
-            b.trans.push((k as i64 * 15_552_000 - 1_000_000_000, ((k * 7 + 1) % typecnt.min(256)) as u8));
+            let reach = typecnt.min(256);
+            let idx = match pattern {
+                0 => (k * 7 + 1) % reach,
+                1 => k % reach,
+                _ => reach - 1 - k % reach,
+            };
+            b.trans.push((if pattern == 0 { k as i64 * 15_552_000 - 1_000_000_000 } else { k as i64 * 1_000_000 - 300_000_000 }, idx as u8));
         }
         for k in 0..leapcnt {
             b.leaps.push((78_796_800 + k as i64 * 31_536_000, k as i32 + 1));
@@ -715,7 +729,7 @@ fn sweep_large(rec: &Recorder, thorough: bool) -> Tally {
             let small = Block { types: vec![(0, 0, 0)], chars: b"UTC\0".to_vec(), ..Default::default() };
             let f = if version == 0 { tzif::file(0, &b, None, None) } else { tzif::file(version, &small, Some(&b), Some(b"")) };
             let before = tl.rejected;
-            check_file(&f, &format!("large: timecnt={timecnt} typecnt={typecnt} leapcnt={leapcnt} version={version} indicators={ind}"), rec, "large_tables", &mut tl);
+            check_file(&f, &format!("large: timecnt={timecnt} typecnt={typecnt} leapcnt={leapcnt} version={version} indicators={ind} index_pattern={pattern}"), rec, "large_tables", &mut tl);
             if tl.rejected > before {
                 rejected_names.push(format!("timecnt={timecnt} typecnt={typecnt} leapcnt={leapcnt} version={version}: {:?}", tzif::decode(&f).map(|d| expected_zone(&d).is_some())));
             }
